@@ -487,13 +487,15 @@ pub fn run(world: &World, cfg: &RunCfg, seed: u64, tag: &str) -> Outcome {
 			let before = receiver.digest().ok();
 			for attempt in 0..10 {
 				let work = crate::node::fresh_dir(&format!("{}-hz{}", tag, attempt));
-				// three at random, then one byte flip in each hash file and in two data files
+				// (an accepted archive - one whose change binds nothing - ends the series: the flips in the
+				// kernel data, which only the receiver's own signature check binds, come early, the flip
+				// in the output data, often in a spent output and then accepted, last)
 				let target = match attempt {
-					3 => Some("output/pmmr_hash.bin"),
-					4 => Some("rangeproof/pmmr_hash.bin"),
-					5 => Some("kernel/pmmr_hash.bin"),
-					6 => Some("output/pmmr_data.bin"),
-					7 | 8 | 9 => Some("kernel/pmmr_data.bin"),
+					1 | 2 | 3 => Some("kernel/pmmr_data.bin"),
+					4 => Some("output/pmmr_hash.bin"),
+					5 => Some("rangeproof/pmmr_hash.bin"),
+					6 => Some("kernel/pmmr_hash.bin"),
+					9 => Some("output/pmmr_data.bin"),
 					_ => None,
 				};
 				let made = match server.txhashset_read(ah.hash()) {
